@@ -210,8 +210,9 @@ def evaluate(r, prop, known):
             undecided.append('unattributed verifier message: ' + e['kind'])
     names_seen = set(r.breakdown.keys())
     for c in asm.contracted:
-        fn_tags = set(c['tags']) | {'C01'}
         cl = [(x, clause_tags(x, c['tags'])) for x in c['ensures']]
+        # a body-level failure (violated callee precondition, overflow, ..) concerns every property the function carries
+        fn_tags = set(c['tags']) | {'C01'} | set(t for (_x, ts) in cl for t in ts if t.startswith('C'))
         my_clauses = [x for (x, t) in cl if prop in t]
         relevant = prop in fn_tags or bool(my_clauses)
         if not relevant:
